@@ -83,15 +83,20 @@ fn main() -> ExitCode {
 
     let mut first_arg = args[0].to_ascii_lowercase();
 
-    if first_arg.contains("version") || first_arg.starts_with("-v") {
+    // an option is a single word: a whole query passed as one argument may well contain the text of
+    // an option (`... where name = 'help'`)
+    let is_option_word = |arg: &str| !arg.contains(char::is_whitespace);
+
+    if is_option_word(&first_arg) && (first_arg.contains("version") || first_arg.starts_with("-v")) {
         short_usage_info(no_color);
         return ExitCode::SUCCESS;
     }
 
-    if first_arg.contains("help")
-        || first_arg.starts_with("-h")
-        || first_arg.starts_with("/?")
-        || first_arg.starts_with("/h")
+    if is_option_word(&first_arg)
+        && (first_arg.contains("help")
+            || first_arg.starts_with("-h")
+            || first_arg.starts_with("/?")
+            || first_arg.starts_with("/h"))
     {
         usage_info(config, default_config, no_color);
         return ExitCode::SUCCESS;
@@ -100,7 +105,9 @@ fn main() -> ExitCode {
     let mut interactive = false;
 
     loop {
-        if first_arg.contains("nocolor") || first_arg.contains("no-color") {
+        if !is_option_word(&first_arg) {
+            break;
+        } else if first_arg.contains("nocolor") || first_arg.contains("no-color") {
             no_color = true;
         } else if first_arg.starts_with("-i")
             || first_arg.starts_with("--i")
